@@ -12,6 +12,8 @@ import PacketVerif.Drv.Dhcp4Srv
 import PacketVerif.Drv.Dhcp4File
 import PacketVerif.Drv.Dhcp4Restart
 import PacketVerif.Drv.Dhcp4Opt
+import PacketVerif.Drv.Handlers
+import PacketVerif.Drv.Ssdp
 open PV
 
 /-- dispatch one protocol line to the module that knows the op -/
@@ -33,7 +35,9 @@ def dispatch (line : String) : String :=
       Drv.Dhcp4Srv.handle,
       Drv.Dhcp4File.handle,
       Drv.Dhcp4Restart.handle,
-      Drv.Dhcp4Opt.handle
+      Drv.Dhcp4Opt.handle,
+      Drv.Handlers.handle,
+      Drv.Ssdp.handle
     ]
     match hs.findSome? (fun h => h cmd args) with
     | some r => r
